@@ -166,7 +166,7 @@ pub fn negated(src: &J) -> J {
     s
 }
 
-fn expr_text(rule: &Rule) -> String {
+pub(crate) fn expr_text(rule: &Rule) -> String {
     let mut ids: Vec<(String, String)> = rule
         .detection
         .identifiers
@@ -358,10 +358,10 @@ pub fn adversarial_docs(src: &J) -> Vec<J> {
 // ---------------------------------------------------------------------------------------------
 // examples (validate)
 
-const MARK_KEY: &str = "zzmark";
+pub(crate) const MARK_KEY: &str = "zzmark";
 
 /// examples: [{"d": doc index}] (a mapping, tagged with a unique marker) or [{"raw": DOC}]
-fn example_yaml(ex: &J, docs: &[J], idx: usize) -> Result<Y, String> {
+pub(crate) fn example_yaml(ex: &J, docs: &[J], idx: usize) -> Result<Y, String> {
     if let Some(raw) = ex.get("raw") {
         return doc_yaml(raw);
     }
@@ -388,7 +388,7 @@ pub fn validate(rule: &Rule) -> (&'static str, String, String) {
 
 // ---------------------------------------------------------------------------------------------
 
-fn match_repr(rule: &Rule, d: &J, repr: &str, variant: u64) -> Result<&'static str, String> {
+pub(crate) fn match_repr(rule: &Rule, d: &J, repr: &str, variant: u64) -> Result<&'static str, String> {
     Ok(match repr {
         "yaml" => match doc_yaml(d)? {
             Y::Mapping(m) => matches(rule, &m),
@@ -418,7 +418,7 @@ fn match_repr(rule: &Rule, d: &J, repr: &str, variant: u64) -> Result<&'static s
     })
 }
 
-fn detection_fingerprint(rule: &Rule) -> Result<String, String> {
+pub(crate) fn detection_fingerprint(rule: &Rule) -> Result<String, String> {
     // the serialised form, re-parsed to a YAML value with mapping keys sorted (identifier order
     // in the serialised text is HashMap order and carries no meaning)
     let text = serde_yaml::to_string(rule).map_err(|e| e.to_string())?;
@@ -428,7 +428,7 @@ fn detection_fingerprint(rule: &Rule) -> Result<String, String> {
 
 /// canonical form of a rule given as a YAML value: detection (identifiers sorted by name, bodies in
 /// written order) and the two example lists
-fn value_fingerprint(v: &Y) -> Result<String, String> {
+pub(crate) fn value_fingerprint(v: &Y) -> Result<String, String> {
     fn canon(v: &Y, top: bool) -> String {
         match v {
             Y::Mapping(m) => {
